@@ -19,7 +19,7 @@ start offset by the reference RFC 1035 4.1.4 decoder and by the library (hook ve
 Valid with backward pointers and <= 4 hops => library Ok with exactly the same labels and resume offset; otherwise if Ok then identical. \
 Plus boundary families (labels 62/63/64, names 253..257 wire bytes directly and through 1..3 hops, target label ending at the buffer end, \
 pointers into header/RDATA) and reference-encoded full messages with arbitrary legal compression (pointer chains, pointers into RDATA) \
-parsed through Packet::parse. non-trivial = (buffer, offset) whose first byte at the offset is not 00; distinct = hash of (buffer, offset)",
+parsed through Packet::parse; and records of 13 name-bearing types whose RDLENGTH is 1..4 bytes longer than their typed content, followed by an A record: if accepted, the fields after the names are the bytes that follow them in place. non-trivial = (buffer, offset) whose first byte at the offset is not 00; distinct = hash of (buffer, offset)",
         assumptions: &["hop limits and rejection of forward pointers are tolerated library policies"],
         exhaustive: true,
         min_distinct: 10_000,
@@ -282,6 +282,46 @@ pub fn run(ctx: &mut Ctx) {
                         format!("decoded message differs from the encoded model: {}", d), case());
                 } else {
                     ctx.count("messages_decoded_exactly");
+                }
+            }
+        }
+    }
+
+    // names inside RDATA whose RDLENGTH is a few bytes longer than the typed content (a record some other implementation
+    // padded): if the library accepts the message, the fields that follow a name are still the bytes right after that
+    // name's in-place encoding, and the record after it is intact
+    let ns = if ctx.slow_tool { 26 } else { tier.pick(13_000u64, 650_000u64) };
+    const NAME_THEN_FIXED: [u16; 13] = [6, 14, 17, 15, 36, 18, 21, 33, 2, 5, 12, 7, 8];
+    for idx in 0..ns {
+        if !ctx.take("rdata-slack", idx) {
+            continue;
+        }
+        if ctx.stop("rdata-slack") {
+            break;
+        }
+        let mut r = ctx.rng("rdata-slack", idx);
+        let code = NAME_THEN_FIXED[(idx % 13) as usize];
+        let mut g = Gen::new(&mut r, Cfg { share: 70, max_entries: 2, max_rest: 6, edns: 0, ..Default::default() });
+        let mut p = PktM { id: idx as u16, flags: 0x8400, ..Default::default() };
+        p.qs.push(g.question());
+        let rec = g.record_of(code);
+        p.secs[0].push(rec);
+        p.secs[0].push(RecSem { name: vec![b"after".to_vec()], rtype: 1, class: 1, flush: false, ttl: 77, rd: Rd::Fields(vec![F::Int(0x0A0B0C0D)]) });
+        let mut m = p.to_wire(0);
+        let slack = 1 + (idx / 13) % 4;
+        m.secs[0][0].extra = (0..slack).map(|i| 0xE0 + i as u8).collect();
+        let enc = encode(&m, Plan::Arbitrary(Rng::for_case(ctx.seed, "c06-slack-plan", idx)));
+        let case = || json!({"family": "rdata-slack", "idx": idx, "type": code, "slack": slack, "bytes": hex(&enc.bytes)});
+        ctx.case(true, crate::rng::fnv(&enc.bytes));
+        match monitor::guard(|| Packet::parse(&enc.bytes).map(|p| bridge::observe(&p)).map_err(|e| format!("{:?}", e))) {
+            Err(pn) => ctx.panic_violation("Packet::parse", &pn, case()),
+            Ok(Err(_)) => ctx.count("padded_rdata_rejected_(allowed)"),
+            Ok(Ok(obs)) => {
+                if let Some(d) = diff_pkt(&p, &obs) {
+                    ctx.violation("resumes-after-name", &format!("fields-after-name-differ:{}", type_name(code)),
+                        format!("a {} record whose RDLENGTH exceeds its typed content by {} byte(s) was accepted, but its fields are not the bytes that follow the names in place: {}", type_name(code), slack, d), case());
+                } else {
+                    ctx.count("padded_rdata_fields_read_after_the_names");
                 }
             }
         }
